@@ -80,9 +80,24 @@ where
     slot
 }
 
-fn take_task(eager_only: bool) -> Option<PoolTask> {
+/// what the scheduler can let run next on the pool
+pub enum Runnable {
+    /// a queued closure
+    Start(PoolTask),
+    /// a closure that blocked in a futex wait and has been woken since
+    Resume(Arc<crate::threads::Helper>),
+}
+
+pub(crate) fn take_runnable(eager_only: bool) -> Option<Runnable> {
     with(|s| {
-        if s.crashed || s.pool.is_empty() {
+        if s.crashed {
+            return None;
+        }
+        // (no blocked closure: exactly the decisions, and draws, of a pool of queued tasks)
+        let res: Vec<usize> = if s.blocked.is_empty() { Vec::new() } else { s.blocked.iter().enumerate().filter(|(_, h)| h.runnable()).map(|(i, _)| i).collect() };
+        let np = s.pool.len();
+        let total = np + res.len();
+        if total == 0 {
             return None;
         }
         if eager_only {
@@ -94,12 +109,41 @@ fn take_task(eager_only: bool) -> Option<PoolTask> {
                 return None;
             }
         }
-        let idx = if s.sched.fifo || s.pool.len() == 1 { 0 } else { s.tape.draw(s.pool.len() as u32) as usize };
-        let t = s.pool.remove(idx);
-        s.tasks_run += 1;
-        s.sched_event("run", t.id, idx as u64);
-        Some(t)
+        let idx = if s.sched.fifo || total == 1 { 0 } else { s.tape.draw(total as u32) as usize };
+        if idx < np {
+            let t = s.pool.remove(idx);
+            s.tasks_run += 1;
+            s.sched_event("run", t.id, idx as u64);
+            Some(Runnable::Start(t))
+        } else {
+            let h = s.blocked.remove(res[idx - np]);
+            s.sched_event("pool-resume", h.task_id.load(Ordering::SeqCst), idx as u64);
+            Some(Runnable::Resume(h))
+        }
     })
+}
+
+fn run_job(id: u64, job: crate::threads::Job) {
+    if with(|s| s.threaded) {
+        crate::threads::start(id, job)
+    } else {
+        crate::threads::run_inline(job)
+    }
+}
+
+pub(crate) fn run_runnable(r: Runnable) {
+    match r {
+        Runnable::Start(t) => run_job(t.id, t.run),
+        Runnable::Resume(h) => crate::threads::resume(h),
+    }
+}
+
+fn runnable_blocked(s: &crate::Sim) -> usize {
+    if s.blocked.is_empty() {
+        0
+    } else {
+        s.blocked.iter().filter(|h| h.runnable()).count()
+    }
 }
 
 /// A point where the real program would let other threads make progress: every facade call.
@@ -118,8 +162,8 @@ pub fn yield_point() {
     if over {
         panic!("simulator: yield budget exceeded (unbounded work)");
     }
-    while let Some(t) = take_task(true) {
-        (t.run)();
+    while let Some(r) = take_runnable(true) {
+        run_runnable(r);
     }
 }
 
@@ -138,7 +182,7 @@ pub fn run_task_by_id(id: u64) -> bool {
     });
     match t {
         Some(t) => {
-            (t.run)();
+            run_job(t.id, t.run);
             true
         }
         None => false,
@@ -158,7 +202,7 @@ fn progress_step() -> Progress {
         Nothing,
     }
     let pick = with(|s| {
-        let nt = s.pool.len();
+        let nt = s.pool.len() + runnable_blocked(s);
         let has_timer = !s.timers.is_empty();
         match (nt > 0, has_timer) {
             (false, false) => Pick::Nothing,
@@ -177,8 +221,8 @@ fn progress_step() -> Progress {
     match pick {
         Pick::Nothing => Progress::None,
         Pick::Task => {
-            if let Some(t) = take_task(false) {
-                (t.run)();
+            if let Some(r) = take_runnable(false) {
+                run_runnable(r);
             }
             Progress::Ran
         }
@@ -243,6 +287,12 @@ pub fn block_on<F: Future>(fut: F) -> End<F::Output> {
         }
     };
     shutdown(matches!(end, End::Done(_)));
+    // the main future finished but a pool thread can never finish: the process would hang in
+    // the runtime's destructor
+    let hung = with(|s| std::mem::take(&mut s.shutdown_hung));
+    if hung > 0 && matches!(end, End::Done(_)) {
+        return End::Deadlock;
+    }
     end
 }
 
@@ -266,10 +316,45 @@ fn shutdown(clean: bool) {
         });
         match t {
             None => break,
-            Some((t, true)) => (t.run)(),
+            Some((t, true)) => run_job(t.id, t.run),
             Some((t, false)) => drop(t),
         }
     }
+    // closures that sit in a futex wait: the real runtime joins its running pool threads when
+    // it is dropped, so those that have been woken (their channel was closed when the main
+    // future's state was dropped, say) run on; one that nobody wakes would keep the process
+    // from ever exiting
+    if clean {
+        loop {
+            let h = with(|s| {
+                if s.crashed {
+                    return None;
+                }
+                let i = s.blocked.iter().position(|h| h.runnable())?;
+                let h = s.blocked.remove(i);
+                s.sched_event("shutdown-resume", h.task_id.load(Ordering::SeqCst), 0);
+                Some(h)
+            });
+            match h {
+                Some(h) => crate::threads::resume(h),
+                None => break,
+            }
+        }
+        with(|s| {
+            if !s.crashed && !s.blocked.is_empty() {
+                s.shutdown_hung += s.blocked.len() as u64;
+                s.event("shutdown-hung", s.blocked.len() as u64, 0);
+            }
+        });
+    }
+    // whatever is still parked stays parked
+    with(|s| {
+        let n = s.blocked.len() as u64;
+        if n > 0 {
+            crate::threads::LEAKED.fetch_add(n, Ordering::SeqCst);
+            s.blocked.clear();
+        }
+    });
     let tasks = with(|s| {
         s.timers.clear();
         std::mem::take(&mut s.async_tasks)
